@@ -188,6 +188,7 @@ class PythonNameManager:
                                               start={"<t>": "self.t",
                                                      "<dt>": "self.dt"})
         self.function_map = KeyToUniqueNameMap(forced_prefix="self._functions.")
+        self._phase_map = KeyToUniqueNameMap(forced_prefix="phase_")
 
     def name_global(self, name):
         """Return the identifier for a global variable."""
@@ -204,6 +205,10 @@ class PythonNameManager:
     def name_function(self, function):
         """Return the identifier for a function."""
         return self.function_map.get_or_make_name_for_key(function)
+
+    def name_phase(self, phase_name):
+        """Return the name of the method implementing a phase."""
+        return self._phase_map.get_or_make_name_for_key(phase_name)
 
     def get_global_ids(self):
         """Return an iterator to the recognized global variable ids."""
@@ -364,7 +369,7 @@ class CodeGenerator(StructuredCodeGenerator):
         emit("self.phase_transition_table = "+repr({
             phase_name: (
                 phase.next_phase,
-                BareExpression("self.phase_"+phase_name))
+                BareExpression("self."+self._name_manager.name_phase(phase_name)))
             for phase_name, phase in sorted(dag.phases.items())}))
         emit("")
 
@@ -443,7 +448,8 @@ class CodeGenerator(StructuredCodeGenerator):
         return self._class_emitter.get()
 
     def emit_def_begin(self, name):
-        self._emitter = PythonFunctionEmitter("phase_" + name, ("self",))
+        self._emitter = PythonFunctionEmitter(
+                self._name_manager.name_phase(name), ("self",))
         self._name_manager.clear_locals()
 
     def emit_def_end(self):
@@ -559,8 +565,7 @@ class CodeGenerator(StructuredCodeGenerator):
             self._emit("yield")
 
     def emit_inst_SwitchPhase(self, inst):
-        assert "'" not in inst.next_phase
-        self._emit('raise self.TransitionEvent("' + inst.next_phase + '")')
+        self._emit("raise self.TransitionEvent(" + repr(inst.next_phase) + ")")
         if not self._has_yield_inst:
             self._emit("yield")
 
